@@ -619,6 +619,15 @@ Definition sync_failure (fuel : nat) (w w' : world) : Prop :=
   (reset_mode (sk w) = true -> pfx w' = pfx w /\ keys w' = keys w) /\
   ((pfx w' = pfx w /\ keys w' = keys w) \/ sync_eod_failure fuel w).
 
+Lemma ivs_clear w : ivs_of (sk (clear_resetting w)) = ivs_of (sk w).
+Proof. unfold clear_resetting. cbn [sk]. destruct (resetting (sk w)); reflexivity. Qed.
+Lemma core_ivs s s' : core s = core s' -> ivs_of s = ivs_of s'.
+Proof. intros H. apply core_fields in H. unfold ivs_of. intuition congruence. Qed.
+Lemma next_query_eq s s' :
+  req_sess s = req_sess s' -> serial s = serial s' -> (req_sess s' = false -> session_id s = session_id s') ->
+  next_query s = next_query s'.
+Proof. unfold next_query. intros -> -> H. destruct (req_sess s'); [reflexivity|now rewrite H]. Qed.
+
 Theorem rtr_sync_C03 fuel w :
   NoDup (pfx w) -> NoDup (keys w) ->
   match rtr_sync fuel w with
@@ -641,7 +650,8 @@ Proof.
   - destruct HS as [[Hr HM]|(cr & w1 & r0 & w3 & Hre & Hcase)].
     + (* nothing reached the tables *)
       pose proof (M_next_query _ _ HM) as HQ. destruct HM as (M1 & M2 & M3 & M4 & M5 & M6).
-      rewrite M1, M2. repeat split; auto. right. split; [exact Hr|]. unfold sync_failure. rewrite M1, M2. auto 10.
+      rewrite M1, M2. split; [reflexivity|]. split; [reflexivity|]. right. split; [exact Hr|].
+      unfold sync_failure. rewrite M1, M2. auto 10.
     + destruct (Hpe _ _ _ Hre) as (eod & v4 & v6 & ks & wb & Hrr & Hp & B1 & B2 & BM & B3 & B4 & B5 & B6).
       assert (NPb : NoDup (pfx wb)) by now rewrite B1. assert (NKb : NoDup (keys wb)) by now rewrite B2.
       pose proof (post_ok _ _ _ _ _ _ (process_eod_spec eod v4 v6 ks wb NPb NKb) Hp) as HE.
@@ -650,16 +660,32 @@ Proof.
       destruct Hcase as [(-> & -> & ->)|(Hr0 & -> & ->)].
       * (* success *)
         destruct (eod_post_success _ _ _ _ _ _ HE) as (S1 & S2 & S3 & _ & _ & S4).
+        pose proof (core_ivs _ _ S4) as SI.
         apply core_fields in S4. cbn [session_id req_sess serial last_update refresh_iv expire_iv retry_iv iv_mode resetting upd_serial] in S4.
         destruct S4 as (T1 & T2 & T3 & T4 & T5 & T6 & T7 & T8 & T9).
         destruct (apply_eod_intervals_core (sk wb) eod) as (U1 & _).
-        unfold sync_done. cbn [pfx keys sk now]. rewrite F1, F2. repeat split; auto. left. split; [reflexivity|].
+        unfold sync_done. cbn [pfx keys sk now]. rewrite F1, F2. split; [auto|]. split; [auto|]. left. split; [reflexivity|].
         exists cr, eod, v4, v6, ks. rewrite B3, B1 in S2. rewrite B3, B2 in S3.
-        cbn [serial session_id req_sess resetting last_update upd_last upd_req]. rewrite F1, F2, F3, F4, F6.
+        cbn [pfx keys sk now serial session_id req_sess resetting last_update upd_last upd_req].
         repeat split; auto; try congruence.
-        unfold ivs_of. cbn [refresh_iv expire_iv retry_iv iv_mode upd_last upd_req].
-        admit.
-      * (* an update failed: undone *)
-        admit.
-  - admit.
-Admitted.
+        change (ivs_of (upd_last (upd_req (sk (clear_resetting w3)) false) (now (clear_resetting w3))))
+          with (ivs_of (sk (clear_resetting w3))).
+        rewrite ivs_clear, SI. change (ivs_of (upd_serial (apply_eod_intervals (sk wb) eod) (get32 eod 8)))
+          with (ivs_of (apply_eod_intervals (sk wb) eod)). now apply apply_eod_intervals_ivs.
+      * (* an update failed and was undone *)
+        destruct (eod_post_failure _ _ _ _ _ _ _ HE Hr0) as (P1 & P2 & P3 & G1 & G2 & G3 & G4 & G5 & G6).
+        rewrite F1, F2. split; [auto|]. split; [auto|]. right. split; [discriminate|].
+        destruct BM as (M1 & M2 & M3 & M4 & M5 & M6).
+        unfold sync_failure. rewrite F1, F2, F7. rewrite B1 in P1. rewrite B2 in P2. rewrite B3, B1, B2 in P3.
+        split; [exact P1|]. split; [exact P2|].
+        split; [apply next_query_eq; [congruence|congruence|intros Hq; rewrite F4, G1; apply M6; exact Hq]|].
+        split; [congruence|]. split; [exact P3|].
+        right. exists cr, eod, v4, v6, ks. split; [exact Hrr|].
+        destruct G6 as [G6|G6]; [left; congruence|right].
+        unfold upd_tab_p, upd_tab_k in G6. now rewrite B3, B1, B2 in G6.
+  - destruct HS as [HM|(cr & w1 & Hre)].
+    + pose proof (M_next_query _ _ HM) as HQ. destruct HM as (M1 & M2 & _). auto.
+    + destruct (Hpe _ _ _ Hre) as (eod & v4 & v6 & ks & wb & Hrr & Hp & B1 & B2 & _).
+      assert (NPb : NoDup (pfx wb)) by now rewrite B1. assert (NKb : NoDup (keys wb)) by now rewrite B2.
+      exfalso. exact (post_exc _ _ _ _ _ _ (process_eod_spec eod v4 v6 ks wb NPb NKb) Hp).
+Qed.
